@@ -8,7 +8,10 @@ Used in two ways by props_c06.py:
 A presentation is a dict
   {'S': [state...] | None, 'S0': [...], 'R': [[s, d]...], 'L': [[state, [atom...]]...],
    'back': [[state, base_number]...], 'containers': 'list' | 'set'}
-with states encoded for JSON (int | str | {'t': [...]} for tuples).  With containers == 'set' the S, R and label
+with states encoded for JSON (int | str | {'t': [...]} for tuples | {'o': [label, style]} for a PLAIN OBJECT: an instance of
+the user class Loc below, hashed and compared by identity - one object per (label, style) and presentation, so such a state
+has no value that could be rebuilt from a copy of it; style 'same' gives all of them the same repr).  With containers ==
+'set' the S, R and label
 collections are handed to Kripke as Python sets, so that their iteration order is whatever the interpreter's hashing
 gives.  All observations are reported in BASE NUMBERS (through `back`), together with the iteration orders that the
 live object actually has, so that the caller can run the model on exactly this presentation."""
@@ -18,15 +21,49 @@ sys.path.insert(0, os.path.dirname(os.path.abspath(__file__)))
 from common import to_py, lang_module, call   # noqa: E402  (also puts PMC_REPO first on sys.path)
 
 
+class ObjName(object):
+    """placeholder (in the generating process) for a state that is to be a plain object: enc() writes it as {'o': [label, style]}"""
+    def __init__(self, label, style):
+        self.label, self.style = label, style
+
+    def __eq__(self, other):
+        return isinstance(other, ObjName) and (self.label, self.style) == (other.label, other.style)
+
+    def __hash__(self):
+        return hash(('ObjName', self.label, self.style))
+
+    def __repr__(self):
+        return 'ObjName(%r, %r)' % (self.label, self.style)
+
+
+class Loc(object):
+    """a plain user class used as a state: hashable, compared and hashed by identity (Python's defaults), not orderable;
+    a copy of a Loc is a DIFFERENT state"""
+    def __init__(self, label, same_repr):
+        self.label = label
+        self.same_repr = same_repr
+
+    def __repr__(self):
+        return 'Loc' if self.same_repr else 'Loc(%s)' % self.label
+
+
 def enc(x):
+    if isinstance(x, ObjName):
+        return {'o': [x.label, x.style]}
     if isinstance(x, tuple):
         return {'t': [enc(y) for y in x]}
     return x
 
 
-def dec(x):
+def dec(x, table=None):
+    """table: the objects of this presentation, (label, style) -> Loc (needed as soon as a state is a plain object)"""
     if isinstance(x, dict):
-        return tuple(dec(y) for y in x['t'])
+        if 'o' in x:
+            key = (x['o'][0], x['o'][1])
+            if key not in table:
+                table[key] = Loc(key[0], key[1] == 'same')
+            return table[key]
+        return tuple(dec(y, table) for y in x['t'])
     return x
 
 
@@ -36,15 +73,17 @@ def detuple(x):
     return x
 
 
-def build(pres):
+def build(pres, table=None):
     from pyModelChecking import Kripke
+    if table is None:
+        table = {}
     as_set = pres.get('containers') == 'set'
-    S = None if pres['S'] is None else [dec(s) for s in pres['S']]
-    S0 = [dec(s) for s in pres['S0']]
-    Rl = [(dec(a), dec(b)) for a, b in pres['R']]
+    S = None if pres['S'] is None else [dec(s, table) for s in pres['S']]
+    S0 = [dec(s, table) for s in pres['S0']]
+    Rl = [(dec(a, table), dec(b, table)) for a, b in pres['R']]
     L = {}
     for s, labs in pres['L']:
-        L[dec(s)] = set(labs) if as_set else list(labs)
+        L[dec(s, table)] = set(labs) if as_set else list(labs)
     if as_set:
         S = None if S is None else set(S)
         Rl = set(Rl)
@@ -55,9 +94,10 @@ def build(pres):
 def observe(pres, queries, X, internals=False):
     """-> dict of observations of one presentation; queries: [(logic, formula tree)], X: reach start set (encoded states)"""
     from pyModelChecking.graph import compute_SCCs
-    back = {dec(s): n for s, n in pres['back']}
+    table = {}                                 # the plain-object states of this presentation (shared by all builds below)
+    back = {dec(s, table): n for s, n in pres['back']}
     out = {}
-    r = call(lambda: build(pres))
+    r = call(lambda: build(pres, table))
     if r[0] != 'ok':
         return {'build': list(r)}
     K = r[1]
@@ -70,7 +110,7 @@ def observe(pres, queries, X, internals=False):
     for logic, f in queries:
         f = detuple(f)
         L = lang_module(logic)
-        K2 = build(pres)                       # a fresh object per query: no interference between queries
+        K2 = build(pres, table)                # a fresh object per query: no interference between queries
         a = call(lambda: L.modelcheck(K2, to_py(f, L)))
         if a[0] == 'ok':
             v = a[1]
@@ -83,10 +123,19 @@ def observe(pres, queries, X, internals=False):
         else:
             answers.append(list(a))
     out['answers'] = answers
+    def foreign(vs):
+        try:
+            return any(v not in back for v in vs)
+        except TypeError:
+            return True
     s = call(lambda: [list(c) for c in compute_SCCs(K)])
+    if s[0] == 'ok' and any(foreign(c) for c in s[1]):
+        s = ('err', 'other:foreign-state-in-result')
     out['scc'] = ['ok', sorted(sorted(back[v] for v in c) for c in s[1])] if s[0] == 'ok' else list(s)
-    xs = [dec(x) for x in X]
+    xs = [dec(x, table) for x in X]
     rr = call(lambda: K.get_reachable_set_from(list(xs)))
+    if rr[0] == 'ok' and foreign(rr[1]):
+        rr = ('err', 'other:foreign-state-in-result')
     out['reach'] = ['ok', sorted(back[v] for v in rr[1])] if rr[0] == 'ok' else list(rr)
     if internals:
         # order in which the LTL closure set iterates (Formula.__hash__ is the hash of the printed form): evidence only
